@@ -7,8 +7,8 @@ Import ListNotations.
 From GMS Require Import Store.C19Check Store.C19CheckProofs.
 Open Scope Z_scope.
 
-(* For every schema (generated columns reading base columns) and every set of checks, after ANY history of INSERT /
-   UPDATE statements without IGNORE whose values already have the column type (integers, NULL, DEFAULT, decimal
+(* For every schema (generated columns reading base columns and EARLIER generated columns) and every set of checks (also over
+   generated columns), after ANY history of INSERT / UPDATE / INSERT .. ON DUPLICATE KEY UPDATE statements without IGNORE whose values already have the column type (integers, NULL, DEFAULT, decimal
    literals - everything but strings), every stored row has the schema's length, makes no CHECK false, holds no NULL
    in a NOT NULL column, and every generated column equals its expression over the row. *)
 Theorem C19_stored_rows_ok_typed_histories :
@@ -28,6 +28,13 @@ Theorem C19_update_typed_row_ok :
     row_ok sch chks old -> update_row false sch chks sets old = Stored r -> row_ok sch chks r.
 Proof. exact update_typed_row_ok. Qed.
 Print Assumptions C19_update_typed_row_ok.
+
+(* the ON DUPLICATE KEY UPDATE branch of INSERT (insertIter.handleOnDuplicateKeyUpdate) *)
+Theorem C19_on_duplicate_key_update_typed_row_ok :
+  forall sch chks sets old r, wf_schema sch -> Forall (fun p => typed_rhs (snd p)) sets ->
+    row_ok sch chks old -> odku_row sch chks sets old = Stored r -> row_ok sch chks r.
+Proof. exact odku_typed_row_ok. Qed.
+Print Assumptions C19_on_duplicate_key_update_typed_row_ok.
 
 (* NOT NULL needs no guard: after ANY history (strings, IGNORE, anything) no NOT NULL column holds NULL *)
 Theorem C19_not_null_respected :
